@@ -122,41 +122,105 @@ impl Cache {
 }
 
 // ---- C01.3 / C11.6: the dispatcher `State::get_or_compute_derivative_residual`
-// (feos-core/src/state/residual_properties.rs), body verbatim up to N5 (cache guard ->
-// `&mut Cache` parameter) and N7 (the model evaluation -> stand-in call with assumed contract A1).
-// Seeded states are abstract stand-ins for StateHD<D>; `seedK` records which derive* call
-// produced them (that is the post-condition of C01.2, proved by the Kani unit `derive_seeds`).
-#[verifier::external_body] pub struct S0 { _p: () }
-#[verifier::external_body] pub struct S1 { _p: () }
-#[verifier::external_body] pub struct S2 { _p: () }
-#[verifier::external_body] pub struct SM { _p: () }
-#[verifier::external_body] pub struct S3 { _p: () }
+// (feos-core/src/state/residual_properties.rs), body verbatim up to N5 (cache guard -> `&mut Cache` parameter).
+// The model evaluation is NOT rewritten: `self.eos.residual_helmholtz_energy(&new_state) * new_state.temperature`
+// is type-checked against stand-ins with operator specifications, and assumption A1 says exactly this:
+// the reduced energy evaluated on a seeded state, multiplied with THAT state's (seeded) temperature, is a dual
+// number whose parts are the derivatives the seeds select.  A product with anything else (a plain f64
+// temperature, another state's temperature) carries no guarantee, so the closure contracts fail.
+// Seeded states are stand-ins for StateHD<D>; `seed_k` records which derive* call produced them (the
+// post-condition of C01.2, proved by the Kani unit k_derive_seeds).
+use vstd::std_specs::ops::MulSpecImpl;
+#[verifier::external_body] pub struct Q0 { _p: () }
+#[verifier::external_body] pub struct Q1 { _p: () }
+#[verifier::external_body] pub struct Q2 { _p: () }
+#[verifier::external_body] pub struct QM { _p: () }
+#[verifier::external_body] pub struct Q3 { _p: () }
+#[verifier::external_body] pub struct Tag { _p: () }
+pub struct S0 { pub temperature: Q0, pub volume: Q0, pub tag: Tag }
+pub struct S1 { pub temperature: Q1, pub volume: Q1, pub tag: Tag }
+pub struct S2 { pub temperature: Q2, pub volume: Q2, pub tag: Tag }
+pub struct SM { pub temperature: QM, pub volume: QM, pub tag: Tag }
+pub struct S3 { pub temperature: Q3, pub volume: Q3, pub tag: Tag }
 pub uninterp spec fn seed_1(s: S1) -> Derivative;
 pub uninterp spec fn seed_2(s: S2) -> Derivative;
 pub uninterp spec fn seed_m1(s: SM) -> Derivative;
 pub uninterp spec fn seed_m2(s: SM) -> Derivative;
 pub uninterp spec fn seed_3(s: S3) -> Derivative;
-/// A1: what evaluating beta*A*T on a seeded state yields
-pub trait Seeded: Sized { type D; spec fn ad_ok(self, d: Self::D) -> bool; }
-impl Seeded for S0 { type D = f64; open spec fn ad_ok(self, d: f64) -> bool { d == tv(PartialDerivative::Zeroth) } }
-impl Seeded for S1 { type D = Dual64; open spec fn ad_ok(self, d: Dual64) -> bool {
-    d.re == tv(PartialDerivative::Zeroth) && d.eps == tv(PartialDerivative::First(seed_1(self))) } }
-impl Seeded for S2 { type D = Dual2_64; open spec fn ad_ok(self, d: Dual2_64) -> bool {
-    d.re == tv(PartialDerivative::Zeroth) && d.v1 == tv(PartialDerivative::First(seed_2(self)))
-    && d.v2 == tv(PartialDerivative::Second(seed_2(self))) } }
-impl Seeded for SM { type D = HyperDual64; open spec fn ad_ok(self, d: HyperDual64) -> bool {
-    d.re == tv(PartialDerivative::Zeroth) && d.eps1 == tv(PartialDerivative::First(seed_m1(self)))
-    && d.eps2 == tv(PartialDerivative::First(seed_m2(self)))
-    && d.eps1eps2 == tv(PartialDerivative::SecondMixed(seed_m1(self), seed_m2(self))) } }
-impl Seeded for S3 { type D = Dual3_64; open spec fn ad_ok(self, d: Dual3_64) -> bool {
-    d.re == tv(PartialDerivative::Zeroth) && d.v1 == tv(PartialDerivative::First(seed_3(self)))
-    && d.v2 == tv(PartialDerivative::Second(seed_3(self))) && d.v3 == tv(PartialDerivative::Third(seed_3(self))) } }
+/// the products (uninterpreted), also with a plain f64 (no guarantee is attached to those)
+pub uninterp spec fn prod0(a: Q0, b: Q0) -> f64;
+pub uninterp spec fn prod1(a: Q1, b: Q1) -> Dual64;
+pub uninterp spec fn prod2(a: Q2, b: Q2) -> Dual2_64;
+pub uninterp spec fn prodm(a: QM, b: QM) -> HyperDual64;
+pub uninterp spec fn prod3(a: Q3, b: Q3) -> Dual3_64;
+pub uninterp spec fn prodf0(a: Q0, b: f64) -> f64;
+pub uninterp spec fn prodf1(a: Q1, b: f64) -> Dual64;
+pub uninterp spec fn prodf2(a: Q2, b: f64) -> Dual2_64;
+pub uninterp spec fn prodfm(a: QM, b: f64) -> HyperDual64;
+pub uninterp spec fn prodf3(a: Q3, b: f64) -> Dual3_64;
+impl MulSpecImpl<Q0> for Q0 { open spec fn obeys_mul_spec() -> bool { true } open spec fn mul_req(self, r: Q0) -> bool { true } open spec fn mul_spec(self, r: Q0) -> f64 { prod0(self, r) } }
+impl core::ops::Mul<Q0> for Q0 { type Output = f64; #[verifier::external_body] fn mul(self, r: Q0) -> f64 { unimplemented!() } }
+impl MulSpecImpl<Q1> for Q1 { open spec fn obeys_mul_spec() -> bool { true } open spec fn mul_req(self, r: Q1) -> bool { true } open spec fn mul_spec(self, r: Q1) -> Dual64 { prod1(self, r) } }
+impl core::ops::Mul<Q1> for Q1 { type Output = Dual64; #[verifier::external_body] fn mul(self, r: Q1) -> Dual64 { unimplemented!() } }
+impl MulSpecImpl<Q2> for Q2 { open spec fn obeys_mul_spec() -> bool { true } open spec fn mul_req(self, r: Q2) -> bool { true } open spec fn mul_spec(self, r: Q2) -> Dual2_64 { prod2(self, r) } }
+impl core::ops::Mul<Q2> for Q2 { type Output = Dual2_64; #[verifier::external_body] fn mul(self, r: Q2) -> Dual2_64 { unimplemented!() } }
+impl MulSpecImpl<QM> for QM { open spec fn obeys_mul_spec() -> bool { true } open spec fn mul_req(self, r: QM) -> bool { true } open spec fn mul_spec(self, r: QM) -> HyperDual64 { prodm(self, r) } }
+impl core::ops::Mul<QM> for QM { type Output = HyperDual64; #[verifier::external_body] fn mul(self, r: QM) -> HyperDual64 { unimplemented!() } }
+impl MulSpecImpl<Q3> for Q3 { open spec fn obeys_mul_spec() -> bool { true } open spec fn mul_req(self, r: Q3) -> bool { true } open spec fn mul_spec(self, r: Q3) -> Dual3_64 { prod3(self, r) } }
+impl core::ops::Mul<Q3> for Q3 { type Output = Dual3_64; #[verifier::external_body] fn mul(self, r: Q3) -> Dual3_64 { unimplemented!() } }
+impl MulSpecImpl<f64> for Q0 { open spec fn obeys_mul_spec() -> bool { true } open spec fn mul_req(self, r: f64) -> bool { true } open spec fn mul_spec(self, r: f64) -> f64 { prodf0(self, r) } }
+impl core::ops::Mul<f64> for Q0 { type Output = f64; #[verifier::external_body] fn mul(self, r: f64) -> f64 { unimplemented!() } }
+impl MulSpecImpl<f64> for Q1 { open spec fn obeys_mul_spec() -> bool { true } open spec fn mul_req(self, r: f64) -> bool { true } open spec fn mul_spec(self, r: f64) -> Dual64 { prodf1(self, r) } }
+impl core::ops::Mul<f64> for Q1 { type Output = Dual64; #[verifier::external_body] fn mul(self, r: f64) -> Dual64 { unimplemented!() } }
+impl MulSpecImpl<f64> for Q2 { open spec fn obeys_mul_spec() -> bool { true } open spec fn mul_req(self, r: f64) -> bool { true } open spec fn mul_spec(self, r: f64) -> Dual2_64 { prodf2(self, r) } }
+impl core::ops::Mul<f64> for Q2 { type Output = Dual2_64; #[verifier::external_body] fn mul(self, r: f64) -> Dual2_64 { unimplemented!() } }
+impl MulSpecImpl<f64> for QM { open spec fn obeys_mul_spec() -> bool { true } open spec fn mul_req(self, r: f64) -> bool { true } open spec fn mul_spec(self, r: f64) -> HyperDual64 { prodfm(self, r) } }
+impl core::ops::Mul<f64> for QM { type Output = HyperDual64; #[verifier::external_body] fn mul(self, r: f64) -> HyperDual64 { unimplemented!() } }
+impl MulSpecImpl<f64> for Q3 { open spec fn obeys_mul_spec() -> bool { true } open spec fn mul_req(self, r: f64) -> bool { true } open spec fn mul_spec(self, r: f64) -> Dual3_64 { prodf3(self, r) } }
+impl core::ops::Mul<f64> for Q3 { type Output = Dual3_64; #[verifier::external_body] fn mul(self, r: f64) -> Dual3_64 { unimplemented!() } }
 
-#[verifier::external_body] pub struct State { _p: () }
-#[verifier::external_body]
-pub fn a_times_t<S: Seeded>(st: &State, s: &S) -> (r: S::D) ensures s.ad_ok(r) { unimplemented!() }   // A1
+/// the model (stand-in): what it returns for a seeded state is an uninterpreted function of model and state
+#[verifier::external_body] pub struct Eos { _p: () }
+pub trait Seeded: Sized { type Q; spec fn red(e: Eos, s: Self) -> Self::Q; spec fn red_ig(e: Eos, s: Self) -> Self::Q; }
+pub uninterp spec fn red_a0(e: Eos, s: S0) -> Q0;
+pub uninterp spec fn red_a1(e: Eos, s: S1) -> Q1;
+pub uninterp spec fn red_a2(e: Eos, s: S2) -> Q2;
+pub uninterp spec fn red_am(e: Eos, s: SM) -> QM;
+pub uninterp spec fn red_a3(e: Eos, s: S3) -> Q3;
+pub uninterp spec fn red_i0(e: Eos, s: S0) -> Q0;
+pub uninterp spec fn red_i1(e: Eos, s: S1) -> Q1;
+pub uninterp spec fn red_i2(e: Eos, s: S2) -> Q2;
+pub uninterp spec fn red_im(e: Eos, s: SM) -> QM;
+pub uninterp spec fn red_i3(e: Eos, s: S3) -> Q3;
+impl Seeded for S0 { type Q = Q0; open spec fn red(e: Eos, s: S0) -> Q0 { red_a0(e, s) } open spec fn red_ig(e: Eos, s: S0) -> Q0 { red_i0(e, s) } }
+impl Seeded for S1 { type Q = Q1; open spec fn red(e: Eos, s: S1) -> Q1 { red_a1(e, s) } open spec fn red_ig(e: Eos, s: S1) -> Q1 { red_i1(e, s) } }
+impl Seeded for S2 { type Q = Q2; open spec fn red(e: Eos, s: S2) -> Q2 { red_a2(e, s) } open spec fn red_ig(e: Eos, s: S2) -> Q2 { red_i2(e, s) } }
+impl Seeded for SM { type Q = QM; open spec fn red(e: Eos, s: SM) -> QM { red_am(e, s) } open spec fn red_ig(e: Eos, s: SM) -> QM { red_im(e, s) } }
+impl Seeded for S3 { type Q = Q3; open spec fn red(e: Eos, s: S3) -> Q3 { red_a3(e, s) } open spec fn red_ig(e: Eos, s: S3) -> Q3 { red_i3(e, s) } }
+impl Eos {
+    #[verifier::external_body]
+    pub fn residual_helmholtz_energy<S: Seeded>(&self, s: &S) -> (r: S::Q) ensures r == S::red(*self, *s) { unimplemented!() }
+    #[verifier::external_body]
+    pub fn ideal_gas_helmholtz_energy<S: Seeded>(&self, s: &S) -> (r: S::Q) ensures r == S::red_ig(*self, *s) { unimplemented!() }
+}
+/// A1 (residual): (beta A)(seeded state) * T(seeded state) has the derivatives the seeds select as its parts
+pub broadcast proof fn a1_res0(e: Eos, s: S0) ensures #[trigger] prod0(red_a0(e, s), s.temperature) == tv(PartialDerivative::Zeroth) { admit(); }
+pub broadcast proof fn a1_res1(e: Eos, s: S1) ensures ({ let d = #[trigger] prod1(red_a1(e, s), s.temperature);
+    d.re == tv(PartialDerivative::Zeroth) && d.eps == tv(PartialDerivative::First(seed_1(s))) }) { admit(); }
+pub broadcast proof fn a1_res2(e: Eos, s: S2) ensures ({ let d = #[trigger] prod2(red_a2(e, s), s.temperature);
+    d.re == tv(PartialDerivative::Zeroth) && d.v1 == tv(PartialDerivative::First(seed_2(s))) && d.v2 == tv(PartialDerivative::Second(seed_2(s))) }) { admit(); }
+pub broadcast proof fn a1_resm(e: Eos, s: SM) ensures ({ let d = #[trigger] prodm(red_am(e, s), s.temperature);
+    d.re == tv(PartialDerivative::Zeroth) && d.eps1 == tv(PartialDerivative::First(seed_m1(s))) && d.eps2 == tv(PartialDerivative::First(seed_m2(s)))
+    && d.eps1eps2 == tv(PartialDerivative::SecondMixed(seed_m1(s), seed_m2(s))) }) { admit(); }
+pub broadcast proof fn a1_res3(e: Eos, s: S3) ensures ({ let d = #[trigger] prod3(red_a3(e, s), s.temperature);
+    d.re == tv(PartialDerivative::Zeroth) && d.v1 == tv(PartialDerivative::First(seed_3(s))) && d.v2 == tv(PartialDerivative::Second(seed_3(s)))
+    && d.v3 == tv(PartialDerivative::Third(seed_3(s))) }) { admit(); }
+pub broadcast group a1_residual { a1_res0, a1_res1, a1_res2, a1_resm, a1_res3 }
+
+/// the state (stand-in): the fields the dispatchers may mention
+pub struct State { pub eos: Eos, pub reduced_temperature: f64, pub reduced_volume: f64, pub tag: Tag }
 impl State {
-    // assumed here, proved by the Kani unit derive_seeds (C01.2)
+    // assumed here, proved by the Kani unit k_derive_seeds (C01.2)
     #[verifier::external_body] pub fn derive0(&self) -> (r: S0) { unimplemented!() }
     #[verifier::external_body] pub fn derive1(&self, derivative: Derivative) -> (r: S1) ensures seed_1(r) == derivative { unimplemented!() }
     #[verifier::external_body] pub fn derive2(&self, derivative: Derivative) -> (r: S2) ensures seed_2(r) == derivative { unimplemented!() }
@@ -173,7 +237,7 @@ impl State {
         inv(final(cache).map@), kept(old(cache).map@, final(cache).map@),
 //@addparam cache: &mut Cache
 //@rewrite N5 stmt let mut cache = self.cache.lock().unwrap(); =>
-//@rewrite N7 expr self.eos.residual_helmholtz_energy(&$S) * $S.temperature => a_times_t(self, &$S)
+//@prologue broadcast use a1_residual;
 //@closure 0 d: f64
     ensures d == tv(PartialDerivative::Zeroth)
 //@closure 1 d: Dual64
@@ -199,16 +263,13 @@ pub open spec fn tvi(k: PartialDerivative) -> f64 { truth_ig(canon(k)) }
 pub uninterp spec fn f_add(a: f64, b: f64) -> f64;
 #[verifier::external_body]
 pub fn f_add_exec(a: f64, b: f64) -> (r: f64) ensures r == f_add(a, b) { a + b }
-/// A1 for the ideal-gas model: evaluating beta*A^ig*T on a seeded state
-pub trait SeededIg: Sized { type D; spec fn ig_ok(self, d: Self::D) -> bool; }
-impl SeededIg for S0 { type D = f64; open spec fn ig_ok(self, d: f64) -> bool { d == tvi(PartialDerivative::Zeroth) } }
-impl SeededIg for S1 { type D = Dual64; open spec fn ig_ok(self, d: Dual64) -> bool { d.eps == tvi(PartialDerivative::First(seed_1(self))) } }
-impl SeededIg for S2 { type D = Dual2_64; open spec fn ig_ok(self, d: Dual2_64) -> bool { d.v2 == tvi(PartialDerivative::Second(seed_2(self))) } }
-impl SeededIg for SM { type D = HyperDual64; open spec fn ig_ok(self, d: HyperDual64) -> bool {
-    d.eps1eps2 == tvi(PartialDerivative::SecondMixed(seed_m1(self), seed_m2(self))) } }
-impl SeededIg for S3 { type D = Dual3_64; open spec fn ig_ok(self, d: Dual3_64) -> bool { d.v3 == tvi(PartialDerivative::Third(seed_3(self))) } }
-#[verifier::external_body]
-pub fn ig_times_t<S: SeededIg>(st: &State, s: &S) -> (r: S::D) ensures s.ig_ok(r) { unimplemented!() }   // A1
+/// A1 (ideal gas): the highest dual part of (beta A^ig)(seeded state) * T(seeded state)
+pub broadcast proof fn a1_ig0(e: Eos, s: S0) ensures #[trigger] prod0(red_i0(e, s), s.temperature) == tvi(PartialDerivative::Zeroth) { admit(); }
+pub broadcast proof fn a1_ig1(e: Eos, s: S1) ensures (#[trigger] prod1(red_i1(e, s), s.temperature)).eps == tvi(PartialDerivative::First(seed_1(s))) { admit(); }
+pub broadcast proof fn a1_ig2(e: Eos, s: S2) ensures (#[trigger] prod2(red_i2(e, s), s.temperature)).v2 == tvi(PartialDerivative::Second(seed_2(s))) { admit(); }
+pub broadcast proof fn a1_igm(e: Eos, s: SM) ensures (#[trigger] prodm(red_im(e, s), s.temperature)).eps1eps2 == tvi(PartialDerivative::SecondMixed(seed_m1(s), seed_m2(s))) { admit(); }
+pub broadcast proof fn a1_ig3(e: Eos, s: S3) ensures (#[trigger] prod3(red_i3(e, s), s.temperature)).v3 == tvi(PartialDerivative::Third(seed_3(s))) { admit(); }
+pub broadcast group a1_ideal { a1_ig0, a1_ig1, a1_ig2, a1_igm, a1_ig3 }
 impl State {
 //@fn feos-core/src/state/properties.rs State::get_or_compute_derivative ret=r
     requires
@@ -223,10 +284,9 @@ impl State {
         inv(final(cache).map@), kept(old(cache).map@, final(cache).map@),
 //@addparam cache: &mut Cache
 //@rewrite N5 expr self.get_or_compute_derivative_residual(derivative) => self.get_or_compute_derivative_residual(derivative, cache)
-//@rewrite N7 expr self.eos.ideal_gas_helmholtz_energy(&$S) * $S.temperature => ig_times_t(self, &$S)
 //@rewrite? N16 expr i + r => f_add_exec(i, r)
 //@rewrite? N14 expr unreachable!() => vx_unreachable()
-//@prologue broadcast use ord_total;
+//@prologue broadcast use ord_total; broadcast use a1_ideal;
 //@end
 }
 #[verifier::external_body]
